@@ -352,7 +352,7 @@ func Families(tier string) []*core.Family {
 	uf2 := &nestFam{name: "unprotected-host-call-d2", nests: chunkNests, exits: gen.Exits(2, 1),
 		decls: declRange(2, 1, 2, []gen.DKind{gen.HLog, gen.HRaise}, nil)}
 	fams = append(fams, uf2.family(30, false))
-	fams = append(fams, genforFamily(thorough), xpcallFamily(thorough))
+	fams = append(fams, genforFamily(thorough), xpcallFamily(thorough), staticFamily())
 	return fams
 }
 
@@ -446,5 +446,47 @@ func extraKindFamily(name string, extra gen.Kind, gfKinds, dk []gen.DKind, thoro
 		},
 		Show:          func(i uint64) string { s := at(i); return s.Key() + "\n" + s.Lua() },
 		BudgetSeconds: budget,
+	}
+}
+
+// staticFamily: the compile-time rules of §3.3.7/§3.3.8 for attributed
+// locals.  Every program must be rejected before anything runs ("reject"), or
+// must compile and run to the end ("accept").
+func staticFamily() *core.Family {
+	type sc struct {
+		name, src string
+		reject    bool
+	}
+	cases := []sc{
+		{"assign-to-close", "local x <close> = nil; x = 1", true},
+		{"assign-to-close-upvalue", "local x <close> = nil; local function f() x = 2 end", true},
+		{"assign-to-close-in-list", "local a <const>, b <close> = 1, nil; b = 4", true},
+		{"unknown-attribute", "local x <foo> = 1", true},
+		{"two-close-in-one-list", "local a <close>, b <close> = nil, nil", true}, // "A list of variables can contain at most one to-be-closed variable"
+		{"close-without-value", "local x <close>", false},
+		{"const-and-close-in-one-list", "local a <const>, b <close> = 1, nil", false},
+		{"close-then-plain-in-one-list", "local a <close>, b = nil, 2", false},
+	}
+	return &core.Family{
+		Name: "static-rules",
+		Size: uint64(len(cases)),
+		Run: func(i uint64) core.Outcome {
+			c := cases[i]
+			src := "emit('start') " + c.src + " emit('end')"
+			got := runGolua(src, true)
+			out := core.Outcome{Sig: core.Hash64(got.String()), NonTrivial: true}
+			ok := got.Status == "ok" && len(got.Trace) == 2
+			rejected := got.Status == "compile" && len(got.Trace) == 0
+			switch {
+			case c.reject && !rejected:
+				out.Viol = &core.Violation{Key: "static-rules case=" + c.name + " clause=accepted",
+					Detail: "the program must be rejected at compile time\n" + src + "\ngolua: " + got.String()}
+			case !c.reject && !ok:
+				out.Viol = &core.Violation{Key: "static-rules case=" + c.name + " clause=rejected",
+					Detail: "the program is valid\n" + src + "\ngolua: " + got.String()}
+			}
+			return out
+		},
+		Show: func(i uint64) string { return cases[i].name + ": " + cases[i].src },
 	}
 }
